@@ -745,6 +745,54 @@ if os.path.exists(_tab):
     SCC_TABLE = _d.get("scc", {})
 
 
+def cast_sign(F, R, fns=None):
+    """CAST-SIGN: `x as usize` (u64, u32) of a signed integer wraps a negative value to a huge one, which then sizes a
+    range, an index or an allocation.  Every such cast must sit under a test that the value is not negative: in the `then`
+    of an `if` one of whose conjuncts is `x >= 0` (`x > -1`, `0 <= x`), in the `else` of an `if` whose condition is (a
+    disjunction containing) `x < 0`, or after an earlier diverging `if x < 0 { .. }`."""
+    SIGNED = ("i64", "i32", "isize", "i128", "i16", "i8")
+    UNSIGNED = ("usize", "u64", "u32", "u128", "u16", "u8")
+    n = 0
+    for f in F.fn_list:
+        if "body" not in f or f.get("derived"):
+            continue
+        for x in walk(f["body"]):
+            if not (isinstance(x, dict) and x.get("k") == "Cast" and isinstance(x.get("a"), dict)):
+                continue
+            to = (F.types[x["t"]] if isinstance(x.get("t"), int) and x["t"] < len(F.types) else "").strip()
+            fr = (F.types[x["from"]] if isinstance(x.get("from"), int) and x["from"] < len(F.types) else "").strip()
+            if to not in UNSIGNED or fr not in SIGNED:
+                continue
+            n += 1
+            nrm = lambda t: re.sub(r"[\s()*&]", "", t)
+            t = nrm(sexp(strip(x["a"])))
+            if re.fullmatch(r"-?\d+(_?[iu]\d+|_?[iu]size)?", t):
+                lit_ok = not t.startswith("-")
+                R.ob("CAST-SIGN", "%s|%s" % (f["path"], t), lit_ok, F.loc(f, x), "literal %s cast to %s" % (t, to))
+                continue
+            nonneg = {t + ">=0", t + ">-1", "0<=" + t, "-1<" + t}
+            negative = {t + "<0", t + "<=-1", "0>" + t, "-1>=" + t}
+            why = None
+            for i in walk(f["body"]):
+                if not (isinstance(i, dict) and i.get("k") == "If"):
+                    continue
+                c_raw = sexp(strip(i["cond"]))
+                c = re.sub(r"\s", "", c_raw)
+                conj, disj = {nrm(z) for z in c_raw.split("&&")}, {nrm(z) for z in c_raw.split("||")}
+                if contains(i["then"], x) and conj & nonneg:
+                    why = "inside `if %s`" % sexp(strip(i["cond"]))[:60]
+                elif i.get("else") is not None and contains(i["else"], x) and (disj & negative) and "&&" not in c:
+                    why = "in the else branch of `if %s`" % sexp(strip(i["cond"]))[:60]
+                elif not contains(i, x) and i.get("l", 0) <= x.get("l", 0) and diverges(i["then"]) and (disj & negative) and "&&" not in c:
+                    why = "after the diverging `if %s`" % sexp(strip(i["cond"]))[:60]
+                if why:
+                    break
+            risky = f["path"].startswith(HIGH_RISK_PREFIXES) or any(("<" + p_) in f["path"] or (" " + p_) in f["path"] for p_ in HIGH_RISK_PREFIXES)
+            R.ob("CAST-SIGN", "%s|%s" % (f["path"], t), why is not None, F.loc(f, x),
+                 ("`%s as %s`: %s" % (t, to, why)) if why else "`%s as %s` of a signed value is under no test that it is not negative: a negative value wraps to a huge one (a range of 2^64 elements, an index out of bounds)" % (t, to), undecided=not risky)
+    R.count("CAST-SIGN.casts", n)
+
+
 def unbounded_alloc(F, R):
     """a Range / RangeInclusive whose end-points come from `as_integer_cast` / `as_usize_cast` of call
     arguments and that is collected (or mapped and collected) must be dominated by a test of its length"""
